@@ -1326,7 +1326,7 @@ macro_rules! float_subs {
 fn main() {
     let mut ck = Check::new(
         "C18",
-        "simplest_in: end points from classes (independent, equal, swapped, one end 0, integers, sign-straddling, negative, u = l + 1/(d·k), inside the unit interval; big: u = l ± 1/huge, continued fractions with a shared prefix and diverging tails, convergent pairs, big integer end) judged by brute force over denominators (small) and an independent run-length Stern–Brocot descent (both must agree on small inputs); next_up/next_down/nearest: x from small fractions / continued fractions with bounded partial quotients, limits 1, 2, den(x)±1, den(x), convergent denominators ±1, sqrt(den), k·den, judged by Farey neighbours from an accelerated walk, cross-checked by brute force (limit <= 64) and by the extended-Euclid predecessor test; simplest_from_f32/f64: bit patterns of all finite classes (±0, subnormal, min normal, powers of two, mantissa 1 / all ones, max finite, quotients a/b, integers with spacing >= 2, random) and NaN/inf, judged by 'round trip under own RNE-on-rational' and 'equals the simplest fraction of the exact rounding interval (closed iff even mantissa)'; simplest_from_float: bases {2,3,10} × 6 modes × precision 0..40 × digit patterns with <= p digits, interval from the definition of the mode (round_p), ErrorBounds judged for covering it; is_simpler_than on all pair classes (same denominator, same numerator, opposite sign, big). Non-trivial: the interval contains no integer (descent at least one level) / limit < den(x) / the pair differs; distinct by case digest.",
+        "simplest_in: end points from classes (independent, equal, swapped, one end 0, integers, sign-straddling, negative, u = l + 1/(d·k), inside the unit interval; big: u = l ± 1/huge, continued fractions with a shared prefix and diverging tails, convergent pairs, big integer end) judged by brute force over denominators (small) and an independent run-length Stern–Brocot descent (both must agree on small inputs); next_up/next_down/nearest: x from small fractions / continued fractions with bounded partial quotients, limits 1, 2, den(x)±1, den(x), convergent denominators ±1, sqrt(den), k·den, judged by Farey neighbours from an accelerated walk, cross-checked by brute force (limit <= 64) and by the extended-Euclid predecessor test; simplest_from_f32/f64: bit patterns of all finite classes (±0, subnormal, min normal, powers of two, mantissa 1 / all ones, max finite, quotients a/b, integers with spacing >= 2, random) and NaN/inf, judged by 'round trip under own RNE-on-rational' and 'equals the simplest fraction of the exact rounding interval (closed iff even mantissa)'; simplest_from_float: bases {2,3,10,16} × 6 modes × precision 0..40 × digit patterns with <= p digits, interval from the definition of the mode (round_p), ErrorBounds judged for covering it; is_simpler_than on all pair classes (same denominator, same numerator, opposite sign, big). Non-trivial: the interval contains no integer (descent at least one level) / limit < den(x) / the pair differs; distinct by case digest.",
     );
     ck.assume("IEEE reference routine validated in-run against hardware casts (sub rne_selfcheck) and against the float's own neighbours (bit pattern ± 1)");
     ck.sub("simplest_in_small", (8_000, 320_000), small_interval, |c, ctx| simplest_in(c, ctx, true));
@@ -1335,7 +1335,7 @@ fn main() {
     ck.sub("farey_big", (3_000, 120_000), farey_big, |c, ctx| farey(c, ctx, false));
     ck.sub("from_f32", (6_000, 240_000), || ieee_bits(&F32), |c, ctx| from_ieee(c, ctx, &F32));
     ck.sub("from_f64", (6_000, 240_000), || ieee_bits(&F64), |c, ctx| from_ieee(c, ctx, &F64));
-    float_subs!(ck, 2 "2", 3 "3", 10 "10");
+    float_subs!(ck, 2 "2", 3 "3", 10 "10", 16 "16");
     ck.sub("is_simpler", (4_000, 160_000), pair_case, is_simpler);
     ck.sub(
         "rne_selfcheck",
